@@ -14,9 +14,9 @@ CONSTANTS
   MaxArgs = 2
   KwCalls = FALSE
   MaxRet = 4
-  DistinctRets = FALSE
+  DistinctRets = TRUE
   MaxUnionArgs = 1
-  EmitOneIn = 6
+  EmitOneIn = 1
 INVARIANT PropertyHolds
 INVARIANT MachineIsOperator
 INVARIANT BinderAgrees
